@@ -522,7 +522,16 @@ func runCase(c Cfg) Case {
 			}
 		}
 	}()
-	wg.Wait()
+	{
+		// the producers block in Tun.Inject / Bind.Inject when the device stops reading: bounded wait
+		pdone := make(chan struct{})
+		go func() { wg.Wait(); close(pdone) }()
+		select {
+		case <-pdone:
+		case <-time.After(15 * time.Second):
+			info["producers_blocked"] = true
+		}
+	}
 	if c.Remove {
 		// the producers are done injecting; the device is still working: wait for the trigger (or for the device to run dry)
 		for dl := time.Now().Add(10 * time.Second); sentToVictim.Load() < removeAfter && time.Now().Before(dl); {
@@ -561,6 +570,9 @@ func runCase(c Cfg) Case {
 		case <-time.After(10 * time.Second):
 			info["flushers_hung"] = true
 		}
+	}
+	if _, blocked := info["producers_blocked"]; blocked {
+		w.Timeout = 500 * time.Millisecond
 	}
 	cs.Quiet = w.Settle()
 	if !cs.Quiet && !w.Tun.Idle() {
@@ -845,6 +857,10 @@ func genCfg(r *rand.Rand, i int, pkts int) Cfg {
 		c.FlusherKind = []string{"uapi", "mixed"}[(i/6)%2]
 		c.TunBatch, c.BindBatch, c.ChunkMax = 1, []int{1, 8}[r.Intn(2)], []int{1, 1, 2}[r.Intn(3)]
 		c.Procs = []int{2, 2, 3, 1}[r.Intn(4)]
+		if c.FlusherKind == "uapi" {
+			// (measured on a seeded copy with a blocking staged-queue receive: 6/8 runs stall at 2 Ps, 8/8 at 16, 0/8 at 1)
+			c.Procs = []int{2, 4, runtime.NumCPU()}[r.Intn(3)]
+		}
 		c.PaceUs = 0
 		c.BigMix, c.Huge, c.Forged = false, false, 0
 		c.Hogs, c.OneIn = 0, 0
